@@ -47,8 +47,27 @@ impl Call {
     }
 }
 
-const E2: [ctap2::Error; 4] = [ctap2::Error::InvalidParameter, ctap2::Error::PinInvalid, ctap2::Error::Other, ctap2::Error::NoCredentials];
-const E1: [ctap1::Error; 4] = [ctap1::Error::ConditionsOfUseNotSatisfied, ctap1::Error::IncorrectDataParameter, ctap1::Error::NotEnoughMemory, ctap1::Error::KeyReferenceNotFound];
+/// behaviours 1..=4 are used in histories; the single-dispatch space uses every named status
+const E2: [ctap2::Error; 55] = {
+    use ctap2::Error::*;
+    [
+        InvalidParameter, PinInvalid, Other, NoCredentials, Success, InvalidCommand, InvalidLength, InvalidSeq, Timeout, ChannelBusy, LockRequired, InvalidChannel, CborUnexpectedType,
+        InvalidCbor, MissingParameter, LimitExceeded, UnsupportedExtension, FingerprintDatabaseFull, LargeBlobStorageFull, CredentialExcluded, Processing, InvalidCredential,
+        UserActionPending, OperationPending, NoOperations, UnsupportedAlgorithm, OperationDenied, KeyStoreFull, NotBusy, NoOperationPending, UnsupportedOption, InvalidOption,
+        KeepaliveCancel, UserActionTimeout, NotAllowed, PinBlocked, PinAuthInvalid, PinAuthBlocked, PinNotSet, PinRequired, PinPolicyViolation, PinTokenExpired, RequestTooLarge,
+        ActionTimeout, UpRequired, UvBlocked, IntegrityFailure, InvalidSubcommand, UvInvalid, UnauthorizedPermission, SpecLast, ExtensionFirst, ExtensionLast, VendorFirst, VendorLast,
+    ]
+};
+const E1: [ctap1::Error; 8] = [
+    ctap1::Error::ConditionsOfUseNotSatisfied,
+    ctap1::Error::IncorrectDataParameter,
+    ctap1::Error::NotEnoughMemory,
+    ctap1::Error::KeyReferenceNotFound,
+    ctap1::Error::Success,
+    ctap1::Error::ClassNotSupported,
+    ctap1::Error::InstructionNotSupportedOrInvalid,
+    ctap1::Error::WrongLength,
+];
 
 /// recording mock; `fail`: None = handlers succeed with their canned value, Some(i) = error i
 pub struct Mock {
@@ -388,11 +407,13 @@ impl Space for Dispatch {
     }
 }
 
-fn all_steps(al: &Alphabet) -> Vec<Step> {
+/// behaviours 0 (success) and 1..=n_err (error index + 1); CTAP1 requests have 8 errors
+fn all_steps(al: &Alphabet, n_err2: u8, n_err1: u8) -> Vec<Step> {
     let mut v = Vec::new();
     for r in 0..(al.ctap2.len() + al.ctap1.len()) as u16 {
+        let n = if (r as usize) < al.ctap2.len() { n_err2 } else { n_err1 };
         for e in 0..2u8 {
-            for b in 0..5u8 {
+            for b in 0..=n {
                 v.push((r, e, b));
             }
         }
@@ -433,8 +454,9 @@ fn check_no_lb(al: &Alphabet, ri: usize, entry: u8) -> Verdict {
 pub fn run(ctx: &'static Ctx) {
     ctx.rule("state = history of dispatches (request, entry point, handler behaviour) replayed on a fresh recording mock; every state checks: exactly one handler call, the command's own handler, pointer-identical and unchanged argument, result or error passed through unchanged; non-trivial = at least one dispatch");
     let al = Arc::new(alphabet());
-    let steps = all_steps(&al);
+    let steps = all_steps(&al, 4, 4);
     let n = steps.len() as u64;
+    let steps_all_errors = all_steps(&al, E2.len() as u8, E1.len() as u8);
     let max = if ctx.thorough() { 2 } else { 2 };
     // depth 2 over the whole alphabet is ~0.7 M histories; the quick tier restricts the second
     // step to one vendor code instead of all 64 (dispatch must be stateless: length 2 shows that)
@@ -448,7 +470,8 @@ pub fn run(ctx: &'static Ctx) {
     ctx.note(format!("{} CTAP2 requests (incl. 64 vendor codes), {} CTAP1 requests, 2 entry points, 5 behaviours: {} single dispatches; {} used for histories", al.ctap2.len(), al.ctap1.len(), n, k));
     // all single dispatches (every vendor code)
     let al1 = al.clone();
-    explore(ctx, Dispatch { al: al1, max: 1, steps: steps.clone() }, Some(1 + n), "every request variant incl. every vendor code x both entry points x success / 4 errors");
+    let n_all = steps_all_errors.len() as u64;
+    explore(ctx, Dispatch { al: al1, max: 1, steps: steps_all_errors }, Some(1 + n_all), "every request variant incl. every vendor code x both entry points x success / every named CTAP2 status (55) resp. 8 CTAP1 status words as the handler's error");
     let al2 = al.clone();
     explore(ctx, Dispatch { al: al2, max, steps: steps_used }, Some(1 + k + k * k), "histories of two dispatches on one authenticator: nothing is carried over");
     let nolb = (al.ctap2.len() * 2) as u64;
